@@ -1055,15 +1055,442 @@ mod c02 {
 }
 
 // =====================================================================================
-/// C01: placeholder until the TlsAuth drivers are added.
+/// C01: concretise the offers of TlsAuth.tla against iroh's TLS verifiers (verifier layer) and
+/// dial real endpoints on 127.0.0.1 (end-to-end layer).
 mod c01 {
+    use std::{collections::BTreeMap, net::SocketAddr, time::Duration};
+
+    use data_encoding::{BASE32_DNSSEC, HEXLOWER};
+    use iroh::{Endpoint, EndpointAddr, TransportAddr, endpoint::presets, verif_hooks_ident as hooks};
+    use iroh_base::{PublicKey, SecretKey};
+    use rustls::pki_types::ServerName;
+
     use super::*;
-    pub fn run_verifier(_args: &Args) {
-        eprintln!("c01v not built yet");
-        std::process::exit(2);
+
+    const KEYS: [&str; 3] = ["k1", "k2", "k3"];
+    /// DER prefix of an Ed25519 SubjectPublicKeyInfo (RFC 8410): SEQ{ SEQ{ OID 1.3.101.112 } BIT STRING(0 unused) }
+    const SPKI_PREFIX: [u8; 12] = [0x30, 0x2a, 0x30, 0x05, 0x06, 0x03, 0x2b, 0x65, 0x70, 0x03, 0x21, 0x00];
+    const ED25519: u16 = 0x0807;
+    const OTHER_SCHEMES: [u16; 6] = [0x0403, 0x0804, 0x0401, 0x0808, 0x0000, 0x0503];
+
+    fn spki(key: &[u8; 32]) -> Vec<u8> {
+        let mut v = SPKI_PREFIX.to_vec();
+        v.extend_from_slice(key);
+        v
     }
-    pub fn run_e2e(_args: &Args) {
-        eprintln!("c01e not built yet");
-        std::process::exit(2);
+
+    fn der(tag: u8, content: &[u8]) -> Vec<u8> {
+        let mut v = vec![tag];
+        let n = content.len();
+        if n < 128 {
+            v.push(n as u8);
+        } else if n < 256 {
+            v.extend_from_slice(&[0x81, n as u8]);
+        } else {
+            v.extend_from_slice(&[0x82, (n >> 8) as u8, n as u8]);
+        }
+        v.extend_from_slice(content);
+        v
+    }
+
+    /// An X.509-shaped certificate around the Ed25519 SPKI of `key` (self-"signed" with `sig`).
+    fn x509(key: &[u8; 32], sig: &[u8; 64], rng: &mut ChaCha8Rng) -> Vec<u8> {
+        let alg = der(0x30, &[0x06, 0x03, 0x2b, 0x65, 0x70]);
+        let name = der(0x30, &der(0x31, &der(0x30, &[&[0x06, 0x03, 0x55, 0x04, 0x03][..], &der(0x0c, b"iroh")[..]].concat())));
+        let validity = der(0x30, &[der(0x17, b"240101000000Z"), der(0x17, b"340101000000Z")].concat());
+        let serial: [u8; 8] = rng.random();
+        let tbs = der(
+            0x30,
+            &[der(0xa0, &[0x02, 0x01, 0x02]), der(0x02, &[&[0x01][..], &serial[..]].concat()), alg.clone(), name.clone(), validity, name, spki(key)]
+                .concat(),
+        );
+        let mut bits = vec![0u8];
+        bits.extend_from_slice(sig);
+        der(0x30, &[tbs, alg, der(0x03, &bits)].concat())
+    }
+
+    fn non_point(rng: &mut ChaCha8Rng) -> [u8; 32] {
+        loop {
+            let b: [u8; 32] = rng.random();
+            if ed25519_dalek::VerifyingKey::from_bytes(&b).is_err() {
+                return b;
+            }
+        }
+    }
+
+    fn sign_with(sk: &SecretKey, msg: &[u8]) -> Vec<u8> {
+        use ed25519_dalek::Signer;
+        ed25519_dalek::SigningKey::from_bytes(&sk.to_bytes()).sign(msg).to_bytes().to_vec()
+    }
+
+    /// The content covered by a TLS 1.3 CertificateVerify signature (RFC 8446 4.4.3).
+    fn transcript(server_signs: bool, rng: &mut ChaCha8Rng) -> Vec<u8> {
+        let mut m = vec![0x20u8; 64];
+        m.extend_from_slice(if server_signs { b"TLS 1.3, server CertificateVerify" } else { b"TLS 1.3, client CertificateVerify" });
+        m.push(0);
+        let hash: [u8; 32] = rng.random();
+        m.extend_from_slice(&hash);
+        m
+    }
+
+    struct World {
+        keys: BTreeMap<&'static str, SecretKey>,
+    }
+
+    impl World {
+        fn new(rng: &mut ChaCha8Rng) -> Self {
+            let mut keys: BTreeMap<&'static str, SecretKey> = BTreeMap::new();
+            for k in KEYS {
+                loop {
+                    let sk = SecretKey::from_bytes(&rng.random());
+                    if keys.values().all(|o| o.public() != sk.public()) {
+                        keys.insert(k, sk);
+                        break;
+                    }
+                }
+            }
+            Self { keys }
+        }
+        fn sk(&self, k: &str) -> &SecretKey {
+            self.keys.get(k).unwrap_or_else(|| panic!("unknown key name {k}"))
+        }
+        fn pk(&self, k: &str) -> PublicKey {
+            self.sk(k).public()
+        }
+        fn name_of(&self, pk: &PublicKey) -> String {
+            self.keys.iter().find(|(_, sk)| sk.public() == *pk).map(|(n, _)| n.to_string()).unwrap_or_else(|| format!("foreign:{pk}"))
+        }
+    }
+
+    /// Builds the server name of the given form; forms are derived from the real `name::encode` output.
+    fn build_name(w: &World, form: &str, nkey: &str, rng: &mut ChaCha8Rng) -> Result<String, Mismatch> {
+        if form == "ip" {
+            return Ok(["127.0.0.1", "::1", "192.0.2.7"][rng.random_range(0..3)].to_string());
+        }
+        if form == "bare" {
+            return Ok("iroh.invalid".into());
+        }
+        if form == "emptyLabel" {
+            return Ok(".iroh.invalid".into());
+        }
+        if form == "nonPoint" {
+            return Ok(format!("{}.iroh.invalid", BASE32_DNSSEC.encode(&non_point(rng))));
+        }
+        let pk = w.pk(nkey);
+        let enc = hooks::name_encode(pk);
+        // the shape the property states, checked with an independent base32 decoder
+        let label = enc.strip_suffix(".iroh.invalid").ok_or_else(|| mm("encode(id) ends in .iroh.invalid", "<base32>.iroh.invalid", &enc, &enc))?;
+        let dec = BASE32_DNSSEC.decode(label.as_bytes()).ok();
+        if dec.as_deref() != Some(&pk.as_bytes()[..]) || label.contains('.') {
+            return Err(mm("encode(id) label is the base32 (DNSSEC alphabet) of the 32 key bytes", HEXLOWER.encode(pk.as_bytes()), &enc, &enc));
+        }
+        let syms: Vec<char> = "0123456789abcdefghijklmnopqrstuv".chars().collect();
+        Ok(match form {
+            "enc" => enc.clone(),
+            "encUpper" => format!("{}.iroh.invalid", label.to_ascii_uppercase()),
+            "upperSuffix" => format!("{label}.IROH.INVALID"),
+            "trailingDot" => format!("{enc}."),
+            "subdomain" => format!("{}.{enc}", ["x", "www", "a-b"][rng.random_range(0..3)]),
+            "noMid" => format!("{label}.invalid"),
+            "wrongTld" => format!("{label}.iroh.{}", ["example", "invalid2", "localhost", "invali"][rng.random_range(0..4)]),
+            "wrongMid" => format!("{label}.{}.invalid", ["irox", "iro", "irohh", "n0"][rng.random_range(0..4)]),
+            "short" => format!("{}.iroh.invalid", &label[..51]),
+            "long" => {
+                let extra: String = (0..rng.random_range(1..=4)).map(|_| syms[rng.random_range(0..32)]).collect();
+                format!("{label}{extra}.iroh.invalid")
+            }
+            "notBase32" => {
+                let mut cs: Vec<char> = label.chars().collect();
+                let i = rng.random_range(1..51usize);
+                cs[i] = ['w', 'x', 'y', 'z', '-', '_'][rng.random_range(0..6)];
+                format!("{}.iroh.invalid", cs.into_iter().collect::<String>())
+            }
+            "nonCanon" => {
+                let mut cs: Vec<char> = label.chars().collect();
+                let v = syms.iter().position(|c| *c == cs[51]).expect("symbol");
+                cs[51] = syms[(v & 0x10) | rng.random_range(1..16usize)];
+                format!("{}.iroh.invalid", cs.into_iter().collect::<String>())
+            }
+            other => panic!("unknown name form {other}"),
+        })
+    }
+
+    fn build_ee(w: &World, cls: &str, ekey: &str, rng: &mut ChaCha8Rng) -> Vec<u8> {
+        match cls {
+            "spki" => spki(w.pk(ekey).as_bytes()),
+            "badPrefix" => {
+                let mut v = spki(w.pk(ekey).as_bytes());
+                // not the OID's last byte (that is class badAlg)
+                let i = [0usize, 1, 2, 3, 4, 5, 6, 7, 9, 10, 11][rng.random_range(0..11)];
+                v[i] ^= 1 << rng.random_range(0..8);
+                v
+            }
+            "badAlg" => {
+                let mut v = spki(w.pk(ekey).as_bytes());
+                v[8] = [0x6e, 0x6f, 0x71][rng.random_range(0..3)]; // X25519, X448, Ed448
+                v
+            }
+            "trailing" => {
+                let mut v = spki(w.pk(ekey).as_bytes());
+                v.push(rng.random());
+                v
+            }
+            "x509" => {
+                let sig: [u8; 64] = sign_with(w.sk(ekey), b"tbs").try_into().expect("64");
+                x509(w.pk(ekey).as_bytes(), &sig, rng)
+            }
+            "rawkey" => w.pk(ekey).as_bytes().to_vec(),
+            "nonPointSpki" => spki(&non_point(rng)),
+            "garbage" => {
+                let n = [1usize, 12, 43, 44, 45, 200][rng.random_range(0..6)];
+                let mut v = vec![0u8; n];
+                rng.fill(&mut v[..]);
+                v
+            }
+            "empty" => Vec::new(),
+            other => panic!("unknown ee class {other}"),
+        }
+    }
+
+    fn verifier_case(c: &Value, rng: &mut ChaCha8Rng) -> R {
+        let w = World::new(rng);
+        let side = fs(c, "side");
+        let o = c.get("o").expect("o");
+        let (form, nkey, eecls, ekey) = (fs(o, "form"), fs(o, "nkey"), fs(o, "ee"), fs(o, "ekey"));
+        let (inter, signer, scheme) = (fu(o, "inter"), fs(o, "signer"), fs(o, "scheme"));
+        let (cert_ok, sig_ok) = (fb(c, "cert_ok"), fb(c, "sig_ok"));
+        let client = side == "client";
+        let honest = fb(c, "honest");
+
+        // --- what the peer presents
+        let msg = transcript(client, rng);
+        let mut ee = build_ee(&w, eecls, ekey, rng);
+        let mut sig: Vec<u8> = match signer {
+            "none" => {
+                let n = [64usize, 64, 64, 0, 63, 65][rng.random_range(0..6)];
+                let mut v = vec![0u8; n];
+                rng.fill(&mut v[..]);
+                v
+            }
+            "replay" => {
+                // a genuine signature by the presented key (or some key) over another handshake's transcript
+                let other = transcript(client, rng);
+                let by = if KEYS.contains(&ekey) { w.sk(ekey).clone() } else { SecretKey::from_bytes(&rng.random()) };
+                sign_with(&by, &other)
+            }
+            k => sign_with(w.sk(k), &msg),
+        };
+        let mut scheme_id = if scheme == "ed25519" { ED25519 } else { OTHER_SCHEMES[rng.random_range(0..OTHER_SCHEMES.len())] };
+        if honest {
+            // the honest offer is what the real certificate resolver / signer of that endpoint produces
+            let (chain, sch, s) = hooks::present(w.sk(ekey), &msg).ok_or_else(|| mm("resolver presents a certificate and signs", "Some", "None", ""))?;
+            if chain.len() != 1 || chain[0] != ee {
+                return Err(mm("an endpoint presents exactly the Ed25519 SPKI of its key", HEXLOWER.encode(&ee), format!("{:?}", chain.iter().map(|c| HEXLOWER.encode(c)).collect::<Vec<_>>()), ""));
+            }
+            ee = chain[0].clone();
+            sig = s;
+            scheme_id = sch;
+        }
+        let inters: Vec<Vec<u8>> = (0..inter)
+            .map(|_| match rng.random_range(0..3) {
+                0 => spki(SecretKey::from_bytes(&rng.random()).public().as_bytes()),
+                1 => ee.clone(),
+                _ => build_ee(&w, "garbage", "none", rng),
+            })
+            .collect();
+        let input = format!(
+            "side={side} name={form}({nkey}) ee={eecls}({ekey})={} inter={inter} signer={signer} scheme={scheme_id:#06x}",
+            HEXLOWER.encode(&ee)
+        );
+
+        // --- certificate check
+        let got_cert: Result<(), String> = if client {
+            let name = build_name(&w, form, nkey, rng)?;
+            let input = format!("{input} name={name}");
+            // name layer: decode against what the spec allows
+            let allowed = fset(c, "decode");
+            let got = hooks::name_decode(&name).map(|pk| w.name_of(&pk)).unwrap_or_else(|| "none".into());
+            if !allowed.contains(&got) {
+                return Err(mm("name::decode", format!("{allowed:?}"), got, &input));
+            }
+            let decoded = got != "none";
+            match ServerName::try_from(name.as_str()) {
+                // not a server name at all: it can never reach the verifier
+                Err(e) => Err(format!("not presentable: {e}")),
+                Ok(sn) => {
+                    let r = hooks::server_cert(&ee, &inters, &sn).map_err(|e| format!("{e:?}"));
+                    // a lenient-but-allowed decode changes what the certificate check may answer
+                    if allowed.len() > 1 && !decoded && cert_ok {
+                        if r.is_ok() {
+                            return Err(mm("verify_server_cert for a name that does not decode", "reject", "accept", &input));
+                        }
+                        return check_sig(client, &msg, &ee, scheme_id, &sig, sig_ok, &input);
+                    }
+                    r
+                }
+            }
+        } else {
+            hooks::client_cert(&ee, &inters).map_err(|e| format!("{e:?}"))
+        };
+        if got_cert.is_ok() != cert_ok {
+            let what = if client { "verify_server_cert" } else { "verify_client_cert" };
+            return Err(mm(what, if cert_ok { "accept" } else { "reject" }, format!("{got_cert:?}"), &input));
+        }
+        check_sig(client, &msg, &ee, scheme_id, &sig, sig_ok, &input)
+    }
+
+    fn check_sig(client: bool, msg: &[u8], ee: &[u8], scheme: u16, sig: &[u8], sig_ok: bool, input: &str) -> R {
+        let got = if client { hooks::server_sig(msg, ee, scheme, sig) } else { hooks::client_sig(msg, ee, scheme, sig) };
+        if got.is_ok() != sig_ok {
+            return Err(mm("verify_tls13_signature", if sig_ok { "accept" } else { "reject" }, format!("{got:?}"), input));
+        }
+        if hooks::tls12_sig(!client, msg, ee, scheme, sig) {
+            return Err(mm("verify_tls12_signature", "reject", "accept", input));
+        }
+        Ok(())
+    }
+
+    pub fn run_verifier(args: &Args) {
+        let (offers_auth, srv_raw, cli_raw, s1, s2) = hooks::policy();
+        assert!(offers_auth && srv_raw && cli_raw, "verifier policy: client auth offered and raw public keys required");
+        assert!(s1 == vec![ED25519] && s2 == vec![ED25519], "verifier policy: only Ed25519 is advertised");
+        drive(args, verifier_case);
+    }
+
+    // ------------------------------------------------------------------ end to end
+    const ALPN: &[u8] = b"verif/c01";
+
+    #[derive(Serialize, Default)]
+    struct E2eObs {
+        idx: u64,
+        env_error: Option<String>,
+        connected: bool,
+        client_remote: String,
+        client_error: String,
+        server_accepted: bool,
+        server_remote: String,
+        server_error: String,
+        second_connected: Option<bool>,
+        second_remote: String,
+        elapsed_ms: u64,
+    }
+
+    async fn bind(sk: SecretKey) -> Result<(Endpoint, SocketAddr), String> {
+        let ep = Endpoint::builder(presets::Minimal)
+            .secret_key(sk)
+            .alpns(vec![ALPN.to_vec()])
+            .clear_ip_transports()
+            .bind_addr("127.0.0.1:0")
+            .map_err(|e| format!("bind_addr: {e}"))?
+            .bind()
+            .await
+            .map_err(|e| format!("bind: {e:?}"))?;
+        let addr = ep.bound_sockets().into_iter().find(|a| a.is_ipv4()).ok_or("no bound IPv4 socket")?;
+        let addr = SocketAddr::new(std::net::Ipv4Addr::LOCALHOST.into(), addr.port());
+        Ok((ep, addr))
+    }
+
+    async fn e2e_case(c: &Value, seed: u64) -> E2eObs {
+        let idx = c.get("idx").and_then(|v| v.as_u64()).expect("idx");
+        let mut rng = case_rng(seed, idx, 0);
+        let w = World::new(&mut rng);
+        let (dialer, dial, actual) = (fs(c, "dialer"), fs(c, "dial"), fs(c, "actual"));
+        let again = c.get("again").and_then(|v| v.as_bool()).unwrap_or(false);
+        let mut obs = E2eObs { idx, ..Default::default() };
+        let t0 = std::time::Instant::now();
+        let (server, saddr) = match bind(w.sk(actual).clone()).await {
+            Ok(x) => x,
+            Err(e) => {
+                obs.env_error = Some(e);
+                return obs;
+            }
+        };
+        let (client, _) = match bind(w.sk(dialer).clone()).await {
+            Ok(x) => x,
+            Err(e) => {
+                obs.env_error = Some(e);
+                return obs;
+            }
+        };
+        // acceptor: reports every handshake outcome on the accepting side
+        let (tx, mut rx) = tokio::sync::mpsc::unbounded_channel::<Result<PublicKey, String>>();
+        let srv = server.clone();
+        let acceptor = tokio::spawn(async move {
+            while let Some(incoming) = srv.accept().await {
+                let tx = tx.clone();
+                tokio::spawn(async move {
+                    match incoming.await {
+                        Ok(conn) => {
+                            let _ = tx.send(Ok(conn.remote_id()));
+                            conn.closed().await;
+                        }
+                        Err(e) => {
+                            let _ = tx.send(Err(format!("{e:?}")));
+                        }
+                    }
+                });
+            }
+        });
+        let target = EndpointAddr::from_parts(w.pk(dial), [TransportAddr::Ip(saddr)]);
+        let rounds = if again { 2 } else { 1 };
+        for round in 0..rounds {
+            let r = tokio::time::timeout(Duration::from_secs(20), client.connect(target.clone(), ALPN)).await;
+            let (connected, remote, err) = match r {
+                Err(_) => (false, String::new(), "timeout".to_string()),
+                Ok(Err(e)) => (false, String::new(), format!("{e:?}")),
+                Ok(Ok(conn)) => {
+                    let id = w.name_of(&conn.remote_id());
+                    // make sure the acceptor saw the connection before closing
+                    let sres = tokio::time::timeout(Duration::from_secs(10), rx.recv()).await;
+                    match sres {
+                        Ok(Some(Ok(pk))) => {
+                            obs.server_accepted = true;
+                            obs.server_remote = w.name_of(&pk);
+                        }
+                        Ok(Some(Err(e))) => obs.server_error = e,
+                        _ => obs.server_error = "no event".into(),
+                    }
+                    conn.close(0u32.into(), b"done");
+                    (true, id, String::new())
+                }
+            };
+            if round == 0 {
+                obs.connected = connected;
+                obs.client_remote = remote;
+                obs.client_error = err;
+                if !connected {
+                    // the accepting side must not have an established connection either
+                    if let Ok(Some(ev)) = tokio::time::timeout(Duration::from_millis(300), rx.recv()).await {
+                        match ev {
+                            Ok(pk) => {
+                                obs.server_accepted = true;
+                                obs.server_remote = w.name_of(&pk);
+                            }
+                            Err(e) => obs.server_error = e,
+                        }
+                    }
+                }
+            } else {
+                obs.second_connected = Some(connected);
+                obs.second_remote = remote;
+            }
+        }
+        client.close().await;
+        server.close().await;
+        acceptor.abort();
+        obs.elapsed_ms = t0.elapsed().as_millis() as u64;
+        obs
+    }
+
+    pub fn run_e2e(args: &Args) {
+        let cases: Vec<Value> = read_ndjson(&args.path("in"));
+        let mut out = NdjsonOut::create(&args.path("out"));
+        let seed: u64 = std::env::var("VERIF_SEED").ok().and_then(|s| s.parse().ok()).unwrap_or(1);
+        let rt = tokio::runtime::Builder::new_multi_thread().worker_threads(4).enable_all().build().expect("runtime");
+        for c in &cases {
+            let obs = rt.block_on(e2e_case(c, seed));
+            out.emit(&obs);
+        }
+        out.finish();
     }
 }
